@@ -26,26 +26,35 @@ TECHNIQUE = (
     "raise point x every handler, each rendered on the real code and compared with a try/finally reference interpreter"
 )
 RULE = (
-    "Programs: every statement tree of the C13 grammar (text, % try/% except, % for with loop, def declared+called "
-    "[flags subset of buffered/filter/cached/decorator; forms ${d()}, ${capture(d)}, <%call> with content; top-level or "
-    "nested], <%call> of a Python function under supports_caller, <%text filter>, <%include>, two-level inherit, ${CB(caller)}) in two families: F1 = weight<=W1 where "
-    "weight = nodes + def modifiers (each flag, nested, capture); F2 = nodes<=W2 with every flag subset at no extra "
-    "cost (F2 minus F1 is run). A probe is inserted before/after every statement and in every argument list, filter, "
-    "decorator (before/after the call) and cached body. Case = (program, include_error_handler on/off, set of armed "
-    "probes: none, each single probe, each pair for programs of weight<=WP); canonical = printed files + armed set; "
-    "cases whose armed probes do not all fire, and include_error_handler cases that do not differ from the off case, "
-    "are dropped as duplicates of a smaller case. Non-trivial = a probe fires inside >=1 stateful construct and "
-    "something is written after the exception was handled (% try, include_error_handler or error_handler)."
+    "Programs: every statement tree of the C13 grammar (text, % try/% except Boom, % for with loop, a def declared and "
+    "called [flags: every subset of buffered/filter/cached/decorator without cached+decorator; forms ${d(A)}, "
+    "${capture(d, A)}, <%call expr=d(A)> with content; top-level or nested], <%call> of a Python function under "
+    "supports_caller, <%text filter>, <%include>, two-level inherit, ${CB(caller)}) in the families F1 = weight<=W1 with "
+    "weight = nodes + def modifiers (each flag, nested, capture); F2 = nodes<=W2 with every flag subset at no extra cost; "
+    "F3 (thorough) = nodes==W3 with <=1 flag per def; FT = every F2-shaped program of WT nodes with one stateful statement "
+    "(at any depth, one at a time) wrapped in % try. Families are made disjoint (F2,F3,FT minus F1 ...). The finaliser "
+    "inserts a probe before/after every statement and in every argument list, def/text filter, decorator (before and "
+    "after the call), cached body and supports_caller function, and observers of loop/caller/a fresh def call after "
+    "every % try. Case = (program, include_error_handler off/True/False, set of armed probes: none, each single probe, "
+    "each pair for programs of weight<=WP); canonical = printed files + armed set; cases whose armed probes do not all "
+    "fire and include_error_handler cases that do not differ from the off case are dropped as duplicates of a smaller "
+    "case. Each case is run under every handler that applies: none (render_unicode), caller of render_context, "
+    "error_handler returning True, and for programs of weight<=WF error_handler returning False and format_exceptions. "
+    "Non-trivial = a probe fires inside >=1 stateful construct and something is written after the exception was "
+    "handled (% try, include_error_handler or error_handler)."
 )
 ASSUMPTIONS = [
-    "reference interpreter (mc/c13_ref.py, ~250 lines) implements DESIGN Appendix A rules A1,A3,A4,A7,A8 only; CPython try/finally, exec and str are trusted",
+    "reference interpreter (mc/c13_ref.py, ~270 lines) implements DESIGN Appendix A rules A1,A3,A4,A7,A8 only; CPython try/finally, exec and str are trusted",
     "DONT_CARE (not generated): decorator+cached on one def (whether the decorator runs on a cache hit is not documented); capture() of a buffered def "
-    "(returns its text instead of writing it); % for inside call content or nested defs (which loop stack they share is not fixed by A4); "
+    "(it returns its text instead of writing it); % for inside call content or nested defs (which loop stack they share is not fixed by A4); "
     "<%def> declared inside <%call> content; includes nested deeper than 1; content of the format_exceptions page beyond error name and message",
     "cache backend is the harness's dict backend (one store per Template); only the set of keys is compared after every render "
     "(a raise in a creation function must leave no entry), stored values are checked through the output of later hits",
-    "Boom derives from Exception; BaseException-only crash points (KeyboardInterrupt) are not enumerated",
-    "the design's bound W=5/7 over the full flag set is infeasible (1.1e6 programs at modifier-weight 5): the bounds below are what is enumerated completely",
+    "format_exceptions / error_handler-returns-False are run at every crash point only for programs of weight<=WF: _render_error runs after every "
+    "finally clause has run and replaces the buffer stack, so it cannot depend on where the exception came from (html_error_template costs 8 ms per render)",
+    "Boom derives from Exception; BaseException-only crash points (KeyboardInterrupt) are not enumerated; <%block>, <%page> flags, namespace-call "
+    "spellings and expression filters are not in the grammar (they emit the same try/finally sites as nested/top-level defs and <%call>)",
+    "the design's bound W=5/7 over the full flag set is infeasible (1.1e6 programs at modifier-weight 5): the bounds reported are what is enumerated completely",
 ]
 BOUNDS = {
     "quick": {"W1_modifier_weight": 3, "W2_nodes_all_flags": 2, "W2_root_body": "one statement", "WT_wrapped_nodes": 2, "WT_flags": "<=1 per def", "WP_pairs": 2, "WF_error_page_all_points": 2, "for_iterations": 2},
@@ -56,8 +65,8 @@ LEVEL_TEXT = (
     "handled exception, identity of the propagated exception, Context stacks after render_context, cache keys, the error page and a second "
     "render of the same Template are compared with the reference. Complete within the bounds; no sampling."
 )
-LEVEL_NOTE = "Trusted: CPython exec/try-finally/str, the reference interpreter, the harness dict cache backend. Crash points are Python exceptions raised by probes (statement, argument, filter, decorator, cached body), one or two per render."
-READY = False
+LEVEL_NOTE = "Trusted: CPython exec/try-finally/str, the reference interpreter, the harness dict cache backend. Crash points are Python exceptions raised by probes (statement, argument, filter, decorator, cached body, supports_caller function), one or two per render."
+READY = True
 
 LETTER_POOLS = [
     "abcdefghijklmnopqrstuvwxyz",
